@@ -589,17 +589,17 @@ def parallel(ctx):
     p = "vibrato::dictionary::lexicon::map::WordMap::new"
     fa = E.fa(p)
     S = Sym(E, fa)
-    ar = calls_named(fa, "add_record")
+    ar = record_insert(fa)
     ok = len(ar) == 1
     if ok:
-        b, t = ar[0]
-        e = strip_casts(S.operand(t["args"][2]))
-        names, src = chain_of(fa, t["args"][2])
-        ok = "enumerate" in show(S.operand(t["args"][2])) or e[0] == "ap" and "<idx>" in e[1].proj or \
-            (e[0] == "proj" and "#0" in e[2]) or "<idx>" in repr(E.ap_operand(fa, t["args"][2]))
-        bl = base_local(fa, t["args"][2])
+        b, _word_op, id_op = ar[0]
+        e = strip_casts(S.operand(id_op))
+        names, src = chain_of(fa, id_op)
+        ok = "enumerate" in show(S.operand(id_op)) or e[0] == "ap" and "<idx>" in e[1].proj or \
+            (e[0] == "proj" and "#0" in e[2]) or "<idx>" in repr(E.ap_operand(fa, id_op))
+        bl = base_local(fa, id_op)
         # follow to the enumerate item
-        ok = ok or enum_index(E, fa, t["args"][2])
+        ok = ok or enum_index(E, fa, id_op)
     ctx.ob("PARALLEL", "WordMap::new|id-is-row-index", ok, fn_loc(crate, p),
            "word id = enumeration index of the row" if ok else
            "the id registered for a surface is not the row's enumeration index")
@@ -929,6 +929,32 @@ def sortcmp(ctx):
                     o = cfa.origin(ct["args"][1])
                     if o[0] == "call" and len(o[2]["args"]) == 2:
                         tie = (side(o[2]["args"][0]), side(o[2]["args"][1]), cfa.loc(cb))
+        if tie is None and prim is not None:
+            # the tie-break written as a match on the primary comparison:
+            # `match p2.partial_cmp(p1) { Some(Less) => Less, Some(Greater) => Greater, _ => i1.cmp(i2) }`
+            for sb_ in sorted(cfa.live_blocks()):
+                st_ = cfa.term(sb_)
+                if st_["k"] != "switch" or st_.get("ty") != "i8":
+                    continue
+                o_ = cfa.origin(st_["op"])
+                if o_[0] != "rv" or o_[1]["k"] != "discr":
+                    continue
+                arms = dict(zip(st_["vals"], st_["targets"]))
+                if set(arms) != {255, 0, 1}:
+                    continue
+
+                def ret_variant(blk):
+                    for s_ in cfa.blocks[blk]["stmts"]:
+                        if "lhs" in s_ and s_["lhs"]["l"] == 0 and s_["rv"]["k"] == "agg" and \
+                                str(s_["rv"].get("adt", "")).endswith("cmp::Ordering"):
+                            return s_["rv"].get("variant")
+                    return None
+                same_sign = ret_variant(arms[255]) == "Less" and ret_variant(arms[1]) == "Greater"
+                et = cfa.term(arms[0])
+                if same_sign and et["k"] == "call" and \
+                        {strip_generics(x).rsplit("::", 1)[-1] for x in callee_paths(et)} & {"cmp"} and \
+                        et["dest"]["l"] == 0 and len(et["args"]) == 2:
+                    tie = (side(et["args"][0]), side(et["args"][1]), cfa.loc(arms[0]))
         okp = prim is not None and prim[0][0] == "b" and prim[1][0] == "a" and prim[0][1] == prim[1][1]
         ctx.ob("SORTCMP", "%s|sort|%d|frequency-descending" % (p, k), okp, fa.loc(b),
                "primary key: second.%s compared with first.%s (non-increasing frequency)"
@@ -1438,6 +1464,31 @@ def homograph_accumulate(ctx):
     ctx.floor("LEXMAP", "accumulating registrations (entry) in the word-map builder", nacc, 1)
 
 
+def record_insert(fa):
+    """The statement of WordMap::new that registers (surface, id): the call
+    `builder.add_record(word, id)`, or its body written in place
+    (`builder.map.entry(word).or_default().push(id)`). Returns [(block, word operand, id operand)]."""
+    out = []
+    for b, t in fa.calls():
+        nm = {strip_generics(x).rsplit("::", 1)[-1] for x in callee_paths(t)}
+        if "add_record" in nm and len(t["args"]) >= 3:
+            out.append((b, t["args"][1], t["args"][2]))
+        elif "push" in nm and len(t["args"]) == 2:
+            cur = t["args"][0]
+            for _ in range(6):
+                o = fa.origin(cur)
+                if o[0] != "call":
+                    break
+                n2 = {strip_generics(x).rsplit("::", 1)[-1] for x in callee_paths(o[2])}
+                if "entry" in n2 and len(o[2]["args"]) == 2:
+                    out.append((b, o[2]["args"][1], t["args"][1]))
+                    break
+                if not (n2 & {"or_default", "or_insert_with", "or_insert", "deref_mut"}) or not o[2]["args"]:
+                    break
+                cur = o[2]["args"][0]
+    return out
+
+
 def lexmap_shape(ctx):
     """LEXMAP (C11): three places where a lexicon row can be altered or lost without touching the
     parser's columns.
@@ -1453,12 +1504,12 @@ def lexmap_shape(ctx):
     if len(ps) != 1:
         raise EngineError("LEXMAP: anchor lost: WordMap::new")
     fa = E.fa(ps[0])
-    adds = [(b, t) for b, t in fa.calls() if "add_record" in {strip_generics(x).rsplit("::", 1)[-1] for x in callee_paths(t)}]
+    adds = record_insert(fa)
     if len(adds) != 1:
-        raise EngineError("LEXMAP: WordMap::new does not call add_record exactly once")
-    b, t = adds[0]
+        raise EngineError("LEXMAP: WordMap::new does not register (surface, id) exactly once")
+    b, word_op, _id_op = adds[0]
     chain = []
-    cur = t["args"][1]
+    cur = word_op
     for _ in range(10):
         o = fa.origin(cur)
         if o[0] != "call":
